@@ -61,6 +61,7 @@ fn kinds() -> Vec<(&'static str, XVal, Option<XFormula>, Option<u32>, Data)> {
 }
 
 pub fn choose_enc(ch: &mut Chooser) -> XEnc {
+    let ind = ch.choose("enc.xml_indented(no, LF line ends, CR LF line ends)", 3);
     XEnc {
         prefix: ch.flag("enc.prefix"),
         row_r: if ch.flag("enc.row_r_implicit") { RMode::Implicit } else { RMode::Explicit },
@@ -79,7 +80,8 @@ pub fn choose_enc(ch: &mut Chooser) -> XEnc {
         empty_rows: ch.flag("enc.empty_row_elements"),
         reorder_members: ch.flag("enc.member_order"),
         rid_shuffle: ch.flag("enc.relationship_ids_shuffled"),
-        indent: ch.flag("enc.xml_indented"),
+        indent: ind > 0,
+        crlf: ind == 2,
         comments: ch.flag("enc.xml_comments_between_elements"),
         extras: ch.flag("enc.optional_neighbours_of_sheetData"),
         bool_words: ch.flag("enc.booleans_spelled_true_false"),
@@ -128,7 +130,7 @@ fn build(ch: &mut Chooser, anchor: (u32, u32), positions: &[(u32, u32)]) -> Case
 fn enc_tag(e: &XEnc) -> String {
     let mut v = vec![];
     if e.prefix { v.push("prefix"); }
-    if e.indent { v.push("indented"); }
+    if e.indent { v.push(if e.crlf { "indented-crlf" } else { "indented" }); }
     if e.row_r == RMode::Implicit { v.push("row-implicit"); }
     if e.cell_r == RMode::Implicit { v.push("cell-implicit"); }
     match e.dim { DimMode::Exact => {}, DimMode::Absent => v.push("dim-absent"), DimMode::TooSmall => v.push("dim-small"), DimMode::TooLarge => v.push("dim-large"), DimMode::StaleRows => v.push("dim-stale") }
